@@ -10,7 +10,12 @@ def native_only(f):
     return f
 
 
-def forall(lo, hi, p):
+STR_UNIVERSE = set()        # native stand-in for "all strings": the replay harness puts every key it meets in here
+
+
+def forall(lo, hi=None, p=None):
+    if p is None:             # forall("str", lambda k: ...): over the native universe of strings
+        return all(hi(k) for k in sorted(STR_UNIVERSE | {"\x00no-such-key"}))
     return all(p(i) for i in range(lo, hi))
 
 
@@ -99,7 +104,7 @@ def d_is_none(v):
 
 
 def dyn_get(v, k):
-    return v[k]
+    return v[k] if isinstance(v, dict) and k in v else ABSENT
 
 
 def map_has(v, k):
@@ -120,8 +125,54 @@ def size(x):
 import struct as _struct
 
 
+class _Absent:
+    def __repr__(self):
+        return "ABSENT"
+
+
+ABSENT = _Absent()
+
+
 def d_absent():
-    return None
+    return ABSENT
+
+
+def to_dyn(x):
+    return x
+
+
+def d_mk_int(x):
+    return x
+
+
+def d_mk_float(x):
+    return x
+
+
+def d_mk_str(x):
+    return x
+
+
+def d_mk_list(x):
+    return list(x)
+
+
+def d_mk_dict_empty():
+    return {}
+
+
+def d_set(d, k, v):
+    r = dict(d)
+    r[k] = v
+    return r
+
+
+def is_none(x):
+    return x is None
+
+
+def py_str(x):
+    return str(x)
 
 
 def f32_bits(x):
